@@ -543,6 +543,7 @@ def _explore(harness, res, t_start, root, per_path_timeout, total_timeout, vc_ti
              twin, stop_on_violation, do_replay):
     exhausted = False
     seen_labels = set()
+    exc_candidates = []
     with Patched():
         for it in range(max_paths):
             if time.time() - t_start > total_timeout:
@@ -574,10 +575,22 @@ def _explore(harness, res, t_start, root, per_path_timeout, total_timeout, vc_ti
                         res.notes.append(f"crosshair internal: {e}"[:300])
                         status = VerificationStatus.UNKNOWN
                     except Exception as e:
+                        # Unexpected exception out of the code under test: a candidate violation
+                        # ("never fails in any other way"), kept only if it also occurs in the
+                        # concrete replay of a model of this path; otherwise the path is inconclusive.
                         tb = traceback.format_exc()
+                        etype = type(e).__name__
+                        try:
+                            emsg = str(e)[:200]
+                        except BaseException:
+                            emsg = "?"
                         res.unknown_paths += 1
-                        res.notes.append(f"harness exception: {type(e).__name__}: {e}\n{tb[-1500:]}")
+                        res.notes.append(f"harness exception: {etype}: {emsg}\n{tb[-1500:]}")
                         status = VerificationStatus.UNKNOWN
+                        m = ctx._model(space.solver.assertions(), None)
+                        if m is not None and not twin:
+                            exc_candidates.append({"label": f"unexpected-exception:{etype}", "inputs": m,
+                                                   "info": {"exception": f"{etype}: {emsg}", "where": _tb_tail()}})
                     if any(vc.status == "unknown" for vc in ctx.path_vcs):
                         status = VerificationStatus.UNKNOWN
                     ca = CallAnalysis(status) if status is not None else CallAnalysis()
@@ -601,6 +614,16 @@ def _explore(harness, res, t_start, root, per_path_timeout, total_timeout, vc_ti
                 break
     res.exhausted = bool(exhausted)
     res.wall_s = round(time.time() - t_start, 3)
+    for cand in exc_candidates[:3]:
+        if cand["label"] in seen_labels:
+            continue
+        try:
+            ok, detail = replay(harness, cand["inputs"] or {})
+        except BaseException as e:  # noqa
+            ok, detail = False, f"replay crashed: {type(e).__name__}"
+        if ok and detail.startswith("exception in replay: " + cand["label"].split(":", 1)[1]):
+            seen_labels.add(cand["label"])
+            res.counterexamples.append(cand)
     if res.counterexamples:
         if twin or not do_replay:
             res.status = "violation"
